@@ -149,7 +149,7 @@ def render(sc):
     paired = sc["paired"]
     f, out = sc["f"], sc["out"]
     ext = "fastq" if sc["fastq"] else "fasta"
-    args = scen.flatten(scen.mod_tokens(sc)) + scen.flatten(scen.filter_tokens(sc))
+    args = list(sc.get("pre_args", [])) + scen.flatten(scen.mod_tokens(sc)) + scen.flatten(scen.filter_tokens(sc))
     il_out = out.get("interleaved_out") or (paired and out.get("interleaved_in") and False)
     dest = {}
     demux = f.get("demux")
